@@ -27,7 +27,8 @@ func (m *Model) GetBrightness(opts ...resource.ReadOption) (*traits.Brightness, 
 
 func (m *Model) UpdateBrightness(light *traits.Brightness, opts ...resource.WriteOption) (*traits.Brightness, error) {
 	if m.setLevelFromPreset(light) {
-		opts = append(opts, resource.WithMoreUpdatePaths("level_percent"))
+		// opts is the caller's slice, which more than one call may have been given: copy it, don't append in place
+		opts = append(append([]resource.WriteOption(nil), opts...), resource.WithMoreUpdatePaths("level_percent"))
 	}
 	res, err := m.brightness.Set(light, opts...)
 	if err != nil {
